@@ -164,7 +164,7 @@ CLAIMS = {
         "AND the exception-retry path) the headline is a1L+a2L with the 2L uncertainty, every printed section sum equals the items printed above it, every percentage equals "
         "100 x its own component / the stated reference; minimal and SLHA writers print exactly calculate_amu / calculate_uncertainty into the documented block/entry per format; "
         "fill_block_entry changes exactly one entry of exactly the named block (frame over the whole SLHA view).  One obligation failed on the pinned tree (fermionic percentage) "
-        "with a replayed counterexample and was repaired by a fix: commit.  Callee overloads that take further numeric arguments are functions of those arguments (they agree with the API functions only at the library's own a_mu values: C18).",
+        "with a replayed counterexample and was repaired by a fix: commit.  Callee overloads that take further numeric arguments are functions of those arguments (they agree with the API functions only at the library's own a_mu values: C18).  The verbose flag (one axis of the 480 option combinations) cannot change a reported number: every statement it guards, in every function of the library and the program, is a VERBOSE(...) log statement without assignment, non-const call or control transfer (effect inference; replay on the real program).",
    note=NOTE_COMMON + "Model-taking callees are ghost values (pure functions of the const model: C19); iostream/boost::format text formatting to the printed precision and SLHAea "
         "containers are assumed (SLHAea::Coll by an ordered-list contract); echo of input blocks is SLHAea's write_to_stream (external, not claimed).",
    technique="output-effect traces by symbolic execution of the extracted writers + z3; ghost-valued callee contracts", design='5 C15'),
